@@ -284,9 +284,9 @@ func concurrentMemoryStore(r *Run) {
 // overlapping reads may return the session's data: "never honoured later than last use + idle" has no exception for a
 // request that arrives while another one is busy discarding the session.
 func concurrentExpiredReads(r *Run, tag string) {
-	rounds := 120
+	rounds := 1500
 	if r.thorough() {
-		rounds = 3000
+		rounds = 8000
 	}
 	toks, auths := tokPool(), authPool()
 	limits := [][2]time.Duration{{0, 2 * time.Second}, {10 * time.Second, 2 * time.Second}, {3 * time.Second, 0}, {3 * time.Second, 30 * time.Second}}
